@@ -131,11 +131,13 @@ claim("C12",
   "retry-until-no-progress loop of _create_schemas/_process_models on an abstract dependency graph handles exactly the least fixed point Derivable (process_sound, process_complete with fuel |todo|+1), hence "
   "order_independent and clean_run_order_independent for every permutation of the to-do list; RegistryThm.v: re-registration of a class in Schemas.classes_by_name that only raises a flag (the multipart body copy of "
   "bodies.py) is order independent (sticky_order_independent), last-registration-wins is not (overwrite_refuted) except when all uses agree (overwrite_order_independent_if_consistent), and registrations_safe on the regenerated "
-  "table of registration sites (first-only / compatibility-checked / sticky; anything else fails stage A). Correspondence: Coq sort models vs the real Jinja filter/sorted() on random lists, and for every generated module the lines "
+  "table of registration sites (first-only / compatibility-checked / sticky; anything else fails stage A); the _process_models loop WITH its recursive-allOf test (process_rec): with the exact test the processed set is still the "
+  "least fixed point (process_rec_sound/complete, rec_exact_order_independent), a suffix-style test is order dependent (rec_sloppy_refuted), and recursion_test_is_exact on the regenerated shape fact (the test compares with \"/\"+class name); "
+  "dict views of attributes iterated by templates (enum.values.items()) are table sites too: str_enum sorts (dictsort), int_enum does not (known finding int_enum_twin_order). Correspondence: Coq sort models vs the real Jinja filter/sorted() on random lists, and for every generated module the lines "
   "written by each loop site == Order.emit (sorted flag from the regenerated table) of the set in the generating process's own enumeration order. Oracle: byte comparison of whole trees generated in fresh interpreters "
   "across PYTHONHASHSEEDs and across permutations of components.schemas / paths / operations inside a path item (diagnostic-free documents; documents share models as multipart/json/form bodies and responses across operations, "
   "have several media types per body, inline body schemas and name pressure), plus a variant permuting only the media types of request bodies (may reorder the branches of that operation's module by design, nothing else), thorough also with the ruff post-hooks; differences are classified line-exactly into the known findings "
-  "lazy_unsorted, sort_case_tie, addl_lazy_order, module_collision_order, anything else is a violation with (documents, seeds, first differing file) as replay.",
+  "lazy_unsorted, sort_case_tie, addl_lazy_order, module_collision_order, int_enum_twin_order (a document that is diagnostic-free in one order and not in another is a violation), anything else is a violation with (documents, seeds, first differing file) as replay.",
   "Trusted: Coq kernel+vm_compute; gen_loops.py (name-based, conservative set-typedness inference; sites whose order only reaches diagnostic text (EDiag) or whose body commutes (ENone) are accepted); CPython's set iteration order is "
   "not modelled (theorems quantify over all orders, the oracle samples 6/16 hash seeds); str.lower() final-sigma rule; the abstract retry model Retry.v is tied to the code only by the permutation oracle (no abstraction function is run), "
   "and order independence of the CONTENTS of generated classes is checked by oracle, not proved; .ruff_cache is excluded from tree comparison. On the unchanged tree all_loops_sorted is false (known finding lazy_unsorted; fix in /verif/fixes/C12_lazy_sorted.diff).",
@@ -179,7 +181,9 @@ claim("C04",
   "first declaration wins), no_schema_no_value, undocumented_status (None, or UnexpectedStatus when raise_on_unexpected_status), parsed_value_typed (the parsed value inhabits the annotated type; uses the C02/C11 codec theorems), "
   "status_alias refutation. Tied to the code by executing the GENERATED _parse_response on canned httpx.Response objects (every documented status x valid / near-valid / non-JSON / text / bytes / empty bodies, undocumented "
   "statuses, both flag settings) and comparing parsed value / None / UnexpectedStatus / other exception with Endpoint.parse evaluated by vm_compute; an oracle compares sync_detailed / asyncio_detailed results behind "
-  "httpx.MockTransport (status, headers, content verbatim; parsed per document; variants agree) with an expectation computed from the document.",
+  "httpx.MockTransport (status, headers, content verbatim; parsed per document; variants agree) with an expectation computed from the document. Status.v models which keys of the responses map become a documented "
+  "status (HTTPStatus(int(key)): conversion shape regenerated from the AST of Endpoint._add_responses, code table from http.HTTPStatus): accepted_is_registered, registered_three_digits, lettered_key_rejected (default / 2XX / 4xx ...), "
+  "alias refutation; hostile and random keys are run through the real parser and compared with Status.status_of_key.",
   "Trusted: Coq kernel+vm_compute; abstraction epwork.py/absprop.py; client_runner.py; httpx's response.json()/text/content are oracles supplied per case; a File value is identified with its payload bytes.",
   "Coq proof (induction over the response list) + in-Coq differential correspondence against executed generated code", "4/C04")
 
@@ -258,7 +262,7 @@ claim("C06",
   "Coq proof about the total model (exit rule, aggregation, termination bounds) + in-Coq differential correspondence + junk/mutation exploration with a wall-clock limit for the never-raises half", "4/C06")
 
 claim("C16",
-  "PARTIAL. Proved in Coq (29 theorems in props/C16.v, all closed under the global context): (1) frame - the table of EVERY syntactic read of a configuration option (Python ast of openapi_python_client/**/*.py + Jinja ast of "
+  "PARTIAL. Proved in Coq (35 theorems in props/C16.v, all closed under the global context): (1) frame - the table of EVERY syntactic read of a configuration option (Python ast of openapi_python_client/**/*.py + Jinja ast of "
   "every template, including reads through the derived values Project.project_name/package_name/version/project_dir/package_dir and the template globals built from them; regenerated by translate/gen_frame.py on every run; "
   "unclassifiable uses of the Config object become `?` rows) lies inside the per-option documented site set written from the README (file, function/macro, syntactic context such as `test`, `arg:PythonIdentifier:prefix`, "
   "`arg:write_text:encoding`): forallb (reads_within documented_sites) gen_option_reads = true by vm_compute reflection, with the soundness lemmas frame_sound / frame_reads_documented stating what the boolean means; "
@@ -268,7 +272,10 @@ claim("C16",
   "XID_Start / contains a non-XID_Continue character / the original starts with `_`, and then only by the prefix itself); collect_spec (complete characterisation of EndpointCollection.from_data's tag selection incl. "
   "duplicate/colliding tags and unparseable operations), all_tags_identical, first_tag_only, off_within_on; content_type_override / body_override / body_sent_as_itself / source_override / content_type_override_local over a "
   "model of utils.get_content_type + email.message.get_content_type + body type / response source selection; flavour_files + flavour_only_table over Fs.gen_files (file set = package subtree, a function of the document alone, "
-  "under the package prefix + exactly {pyproject.toml, README.md, .gitignore, setup.py for setup, <pkg>/py.typed}); title_prefix_option; literal_enum_same_wire (+ _refuted outside the typed guard) on Codec.v's step semantics. "
+  "under the package prefix + exactly {pyproject.toml, README.md, .gitignore, setup.py for setup, <pkg>/py.typed}); title_prefix_option; literal_enum_same_wire (+ _refuted outside the typed guard) on Codec.v's step semantics; "
+  "literal_enum_same_operations / literal_enum_same_macros (FrameCodec.validate_location over the regenerated _allowed_locations: an enum parameter is accepted in exactly the same locations, and the same wire macros exist, "
+  "under both enum property classes, so literal_enums cannot change which operations are generated); project_name_override_verbatim / package_name_override_verbatim / package_name_is_dash_replacement / "
+  "package_name_keeps_other_chars (the derived package name is the project name with `-` replaced by `_` position by position and nothing else; the frame allows the project name to pass only through `.replace`). "
   "Correspondence (vm_compute in coqc, ~1.4k cases quick): Class.from_string with random override tables / prefixes, prefix sensitivity of PythonIdentifier/ClassName, get_content_type + _source_by_content_type + body_from_data "
   "with random override tables on well-formed and hostile media type strings, endpoint_collections_by_tag for random tag lists with generate_all_tags on/off, ModelProperty.build's class for (title, name, parent, option), "
   "generated file sets per flavour. Stage C (metamorphic): plain + atlas + random documents extended with operations (several tags, octet/form/text/custom media types, names needing a prefix, titled inline objects, enums); "
@@ -277,7 +284,12 @@ claim("C16",
   "pyproject.toml, setup.py, README.md and the package directory name; class_overrides / field_prefix / title option: a bijective renaming of the parser's classes, files identical after whole-word renaming back; "
   "literal_enums / docstrings_on_attributes: only models/ api/ (resp. docstring statements, by AST) change; generate_all_tags: byte-identical module under every tag, first-tag module = option-off module, nothing outside api/; "
   "content_type_overrides: tree equals that of the document with the target media types up to the media type string; metadata flavours: package subtree byte-identical. Wire behaviour (from_dict/to_dict round trips and endpoint "
-  "calls against httpx.MockTransport, both clients executed in fresh interpreters) is compared for the renaming, enum, docstring and media-type options; overridden media types must be sent with their original Content-Type.",
+  "calls against httpx.MockTransport, both clients executed in fresh interpreters) is compared for the renaming, naming, enum, docstring and media-type options; overridden media types must be sent with their original Content-Type. "
+  "literal_enums is additionally compared on a document with string/int enums in every position (model property required/optional/nullable/inline, array item, nested array, union member, additionalProperties, parameters in "
+  "query/path/header/cookie required and optional and as array items, request/response bodies as the body itself / array items / inside models / map values / form fields) and on gen/ops.py's parameter atlas, alone and in the "
+  "context of five other options: the set of api modules, the diagnostics and the parsed operations (parameters by location, bodies, statuses) must be identical and every call must put the same request on the wire and decode "
+  "the same result. Naming overrides use mixed-case / camelCase / digit / `.` / ` ` / `__` strings; a probe generates into the default location (cwd) for project alone / package alone / both in every flavour and compares "
+  "directory names, pyproject/setup/README entries and the importable name with the documented rule computed without the implementation.",
   "NOT a theorem: that an option a function does not read cannot influence it (Python semantics; values the parser stores and passes on are not tracked by the syntactic frame) - trusted and probed by the metamorphic search. "
   "Trusted: Coq kernel+vm_compute; gen_frame.py; the documented site sets are a hand reading of README.md / CLI help (docstrings_on_attributes is also allowed in client.py.jinja, where the generator applies the same convention; "
   "inline children of an overridden class are renamed with it because their names are minted from the parent's class name); undoing a renaming is whole-word token replacement and files are then compared as multisets of lines "
